@@ -120,6 +120,11 @@ func (w *World) exec(cs *clientState, idx int, op Op) *Rec {
 		target := cs.maxSeen
 		s.YieldUntil("client.waitcom", func() bool { return w.committed(op.Node) >= target })
 		return nil
+	case "crash":
+		// the node stops after this request: its goroutines are never resumed, its engine calls never return
+		s.CrashNode(op.Node)
+		s.Note("crash node %d", op.Node)
+		return nil
 	case "cancel":
 		for _, wa := range w.Watchers {
 			if wa.ID == op.W && wa.Client == cs.id && wa.Cancel != nil {
